@@ -1,14 +1,134 @@
-import Autog.Lemmas.Phase4Simple
-import Autog.Lemmas.SinkColoringSweep
-/-! # C04
-    No overlap. First pass: exact spacing of left-to-right placement; a quiet sink-coloring sweep certifies separation. -/
+import Autog.Properties.C16
+import Autog.Lemmas.SinkSweep
+import Autog.Model.Layout
+/-! # C04 — nodes never overlap and keep the configured spacing
+
+    Within a band (layer list, helper nodes included) consecutive nodes are separated: `x + w + NodeSpacing ≤ x'`.
+    * VAlign, PackRight: from the exact spacing of C16, for all inputs.
+    * SinkColoring: `placeBlock` only returns after a sweep that tested every adjacent pair of every layer and shifted
+      nothing; the theorem is about the model `execSinkColoring` (key `T:phase4-sinkcoloring`). It assumes that a block
+      is at least as wide as each of its nodes (`BlockWide`, a decidable contract on the block structure `scBlocks`
+      returns; evaluated by the driver on every traced run as `K:sc-blockwidth`) — PARTIAL: that `setColor` establishes
+      it is not proved. Termination of the fixpoint iteration is not proved either (C01).
+    * NetworkSimplex positioner: no theorem here; see DESIGN.md (predicate on real outputs only).
+    Bands of one component do not overlap vertically by C03. Components: `C04_shift_clears_component`. -/
 
 namespace Autog
+open Phase4Simple
 
-theorem C04_placeFrom_spaced : type_of% @Phase4Simple.placeFrom_spaced := @Phase4Simple.placeFrom_spaced
+theorem C04_valign_separated (ns : Rat) (g : G) (hwf : LayersWF g) (l : Layer) (hl : l ∈ g.layers.toList) :
+    Separated ns (xsOf (execVerticalAlign ns g) l) (widthsOf (execVerticalAlign ns g) l) :=
+  Spaced.separated ns _ _ (C16_valign_spacing ns g hwf l hl)
 
-theorem C04_sweep_quiet : type_of% @SinkColoringSweep.sweep_quiet := @SinkColoringSweep.sweep_quiet
+theorem C04_packright_separated (ns : Rat) (g : G) (hwf : LayersWF g) (l : Layer) (hl : l ∈ g.layers.toList) :
+    Separated ns (xsOf (execPackRight ns g) l) (widthsOf (execPackRight ns g) l) :=
+  Spaced.separated ns _ _ (C16_packright_spacing ns g hwf l hl)
 
-theorem C04_sweep_covers : type_of% @SinkColoringSweep.sweep_covers := @SinkColoringSweep.sweep_covers
+/-! ## SinkColoring -/
+
+theorem adjPairs_sub : ∀ (l : List Nat) (p : Nat × Nat), p ∈ adjPairs l → p.1 ∈ l ∧ p.2 ∈ l
+  | [], p, h => by simp [adjPairs] at h
+  | [_], p, h => by simp [adjPairs] at h
+  | a :: b :: l, p, h => by
+    simp only [adjPairs, List.mem_cons] at h
+    rcases h with rfl | h
+    · simp
+    · obtain ⟨h1, h2⟩ := adjPairs_sub (b :: l) p h
+      exact ⟨List.mem_cons_of_mem _ h1, List.mem_cons_of_mem _ h2⟩
+
+theorem foldl_max_ge_init (f : Layer → Nat) : ∀ (ls : List Layer) (m : Nat), m ≤ ls.foldl (fun m l => max m (f l)) m
+  | [], m => Nat.le_refl _
+  | l :: ls, m => Nat.le_trans (Nat.le_max_left _ _) (foldl_max_ge_init f ls _)
+
+theorem le_foldl_max (f : Layer → Nat) : ∀ (ls : List Layer) (m : Nat) (l : Layer), l ∈ ls → f l ≤ ls.foldl (fun m l => max m (f l)) m
+  | l' :: ls, m, l, h => by
+    rcases List.mem_cons.1 h with rfl | h
+    · exact Nat.le_trans (Nat.le_max_right _ _) (foldl_max_ge_init f ls _)
+    · exact le_foldl_max f ls _ l h
+
+theorem len_le_scLmax (g : G) (l : Layer) (hl : l ∈ g.layers.toList) : l.nodes.length ≤ scLmax g :=
+  le_foldl_max (fun l => l.nodes.length) _ 0 l hl
+
+/-- a block is at least as wide as each of its nodes -/
+def BlockWide (g : G) (bw : Array Rat) (roots : Array Nat) : Prop :=
+  ∀ n ∈ g.layers.toList.flatMap (·.nodes), (g.node n).w ≤ bw.getD (roots.getD n n) 0
+
+theorem scWrite_x (g : G) (hwf : LayersWF g) (xc : Array Rat) (l : Layer) (hl : l ∈ g.layers.toList) (n : Nat) (hn : n ∈ l.nodes) :
+    ((scWrite g xc).node n).x = xc.getD n 0 ∧ ((scWrite g xc).node n).w = (g.node n).w := by
+  have hplan : PlWF g (scPlan g xc) := plwf_of_layers g g rfl hwf (fun l => l.nodes.map fun k => xc.getD k 0) (fun l _ => by simp)
+  have h1 := placeAll_xs (scPlan g xc) g hplan (l.nodes, l.nodes.map fun k => xc.getD k 0) (List.mem_map.2 ⟨l, hl, rfl⟩)
+  exact ⟨List.map_inj_left.1 h1 n hn, w_of_dropX (placeAll_dropX (scPlan g xc) g n)⟩
+
+theorem C04_sinkcoloring_separated (ns : Rat) (g : G) (hwf : LayersWF g) (bw : Array Rat) (roots : Array Nat)
+    (hb : scBlocks g = .ok (bw, roots)) (hwide : BlockWide g bw roots)
+    (g' : G) (d : Nat) (h : execSinkColoring ns g = .ok (g', d)) :
+    ∀ l ∈ g.layers.toList, ∀ p ∈ adjPairs l.nodes,
+      (g'.node p.1).x + (g'.node p.1).w + ns ≤ (g'.node p.2).x := by
+  intro l hl p hp
+  unfold execSinkColoring at h
+  simp only [hb, bind, Except.bind] at h
+  cases hpb : placeBlock g (scLmax g) ns bw roots (placeBlockFuel g) (scInit ns g bw roots) with
+  | error e => rw [hpb] at h; cases h
+  | ok r =>
+    rw [hpb] at h
+    obtain ⟨ps, depth⟩ := r
+    simp only [pure, Except.pure, Except.ok.injEq, Prod.mk.injEq] at h
+    obtain ⟨rfl, _⟩ := h
+    obtain ⟨s0, hround⟩ := placeBlock_final g (scLmax g) ns bw roots _ _ _ _ hpb
+    unfold placeBlockRound at hround
+    have hq := pbSweep_quiet ns (fun n => bw.getD (roots.getD n n) 0) (fun n => roots.getD n n) _ _ (by rw [hround])
+    rw [hround] at hq
+    obtain ⟨hstate, hsep⟩ := hq
+    have hcov := sweepPairsGo_covers (g.layers.toList.map (·.nodes)) (scLmax g)
+      (by intro l' hl'; obtain ⟨l0, hl0, rfl⟩ := List.mem_map.1 hl'; exact len_le_scLmax g l0 hl0)
+      l.nodes (List.mem_map.2 ⟨l, hl, rfl⟩) p hp
+    have := hsep p hcov
+    rw [← hstate] at this
+    obtain ⟨hp1, hp2⟩ := adjPairs_sub l.nodes p hp
+    obtain ⟨hx1, hw1⟩ := scWrite_x g hwf ps.xcoord l hl p.1 hp1
+    obtain ⟨hx2, _⟩ := scWrite_x g hwf ps.xcoord l hl p.2 hp2
+    rw [hx1, hx2, hw1]
+    have hw := hwide p.1 (List.mem_flatMap.2 ⟨l, hl, hp1⟩)
+    grind
+
+/-! ## components side by side -/
+
+theorem rightmostX_ge (g : G) (l : Layer) (hl : l ∈ g.layers.toList) (n : Nat) (hn : l.nodes.getLast? = some n) :
+    (g.node n).x + (g.node n).w ≤ rightmostX g := by
+  unfold rightmostX
+  have : ∀ (ls : List Layer) (m : Rat), l ∈ ls →
+      (g.node n).x + (g.node n).w ≤ ls.foldl (fun m l => match l.nodes.getLast? with
+        | none => m | some n => maxRat m ((g.node n).x + (g.node n).w)) m := by
+    intro ls
+    induction ls with
+    | nil => intro m h; cases h
+    | cons a ls ih =>
+      intro m h
+      simp only [List.foldl_cons]
+      rcases List.mem_cons.1 h with rfl | h
+      · rw [hn]
+        have mono : ∀ (ls : List Layer) (m : Rat), m ≤ ls.foldl (fun m l => match l.nodes.getLast? with
+            | none => m | some n => maxRat m ((g.node n).x + (g.node n).w)) m := by
+          intro ls
+          induction ls with
+          | nil => intro m; exact Rat.le_refl
+          | cons b ls ih2 =>
+            intro m
+            simp only [List.foldl_cons]
+            refine Rat.le_trans ?_ (ih2 _)
+            split
+            · exact Rat.le_refl
+            · exact le_maxRat_left _ _
+        exact Rat.le_trans (le_maxRat_right _ _) (mono ls _)
+      · exact ih _ h
+  exact this _ 0 hl
+
+/-- the next component starts `NodeSpacing` right of the right end of the last node of every layer of this one:
+    `collect` shifts it by `shift + rightmostX g + ns`, and (C04 within the component) its own coordinates are ≥ 0 -/
+theorem C04_shift_clears_component (cfg : Cfg) (shift : Rat) (ci : Nat) (g : G) (gs : List G)
+    (l : Layer) (hl : l ∈ g.layers.toList) (n : Nat) (hn : l.nodes.getLast? = some n) :
+    (g.node n).x + shift + (g.node n).w + cfg.ns ≤ shift + (rightmostX g + cfg.ns) := by
+  have := rightmostX_ge g l hl n hn
+  grind
 
 end Autog
